@@ -857,6 +857,31 @@ FIXED_TRIGGERS = {
                        [{"op": "repeat", "family": "repeat", "in": [0], "params": {"repeats": 0, "axis": 0}}], [1]), "ok"),
     "repeat-0-axis-None-2d": (_prog([_inp([2, 3], [2, 3])],
                                     [{"op": "repeat", "family": "repeat", "in": [0], "params": {"repeats": 0, "axis": None}}], [1]), "ok"),
+    # 8c5c994 / d18946b / 6c5075b: clip with only a lower bound, var/std of 0-d arrays, split_every dict values < 2
+    "clip-min-only-scalar": (_prog([_inp([7], [3])],
+                                   [{"op": "clip", "family": "clip", "in": [0], "params": {"lo": 1, "hi": None, "lo_arg": None, "hi_arg": None}}], [1]), "ok"),
+    "clip-min-only-array": (_prog([_inp([4, 5], [3, 2]), _inp([5], [2], salt=1)],
+                                  [{"op": "clip", "family": "clip", "in": [0, 1], "params": {"lo": None, "hi": None, "lo_arg": 1, "hi_arg": None}}], [2]), "ok"),
+    "var-0d": (_prog([_inp([], [], "float64", salt=3)],
+                     [{"op": "var", "family": "reduce", "in": [0], "params": {"axis": None, "keepdims": False, "split_every": None, "correction": 0}}], [1]), "ok"),
+    "std-0d": (_prog([_inp([], [], "float64", salt=3)],
+                     [{"op": "std", "family": "reduce", "in": [0], "params": {"axis": None, "keepdims": True, "split_every": None, "correction": 0}}], [1]), "ok"),
+    "sum-split_every-{0:1}": (_prog([_inp([7, 3], [2, 2], "int64")],
+              [{"op": "sum", "family": "reduce", "in": [0], "params": {"axis": 0, "keepdims": False, "split_every": {"0": 1}}}], [1]), "decline"),
+    "sum-split_every-{0:0}": (_prog([_inp([7, 3], [2, 2], "int64")],
+              [{"op": "sum", "family": "reduce", "in": [0], "params": {"axis": 0, "keepdims": False, "split_every": {"0": 0}}}], [1]), "decline"),
+    "max-split_every-{0:1}": (_prog([_inp([7, 3], [2, 2], "int64")],
+              [{"op": "max", "family": "reduce", "in": [0], "params": {"axis": 0, "keepdims": False, "split_every": {"0": 1}}}], [1]), "decline"),
+    "max-split_every-{1:0}": (_prog([_inp([7, 3], [2, 2], "int64")],
+              [{"op": "max", "family": "reduce", "in": [0], "params": {"axis": 1, "keepdims": False, "split_every": {"1": 0}}}], [1]), "decline"),
+    "mean-split_every-{0:1}": (_prog([_inp([7, 3], [2, 2], "float64")],
+              [{"op": "mean", "family": "reduce", "in": [0], "params": {"axis": 0, "keepdims": False, "split_every": {"0": 1}}}], [1]), "decline"),
+    "mean-split_every-{0:0}": (_prog([_inp([7, 3], [2, 2], "float64")],
+              [{"op": "mean", "family": "reduce", "in": [0], "params": {"axis": 0, "keepdims": False, "split_every": {"0": 0}}}], [1]), "decline"),
+    "sum-split_every-int-1": (_prog([_inp([7, 3], [2, 2])],
+                                    [{"op": "sum", "family": "reduce", "in": [0], "params": {"axis": 0, "keepdims": False, "split_every": 1}}], [1]), "ok"),
+    "sum-split_every-dict-3": (_prog([_inp([7, 3], [2, 2])],
+                                     [{"op": "sum", "family": "reduce", "in": [0], "params": {"axis": [0, 1], "keepdims": False, "split_every": {"0": 3}}}], [1]), "ok"),
     # d99e354 "fix: hypot only accepts real floating-point dtypes"
     "hypot-int": (_prog([_inp([2], [1], salt=3)],
                         [{"op": "hypot", "family": "binary", "in": [0, 0], "params": {"_k": "binary"}}], [1]), "decline"),
